@@ -30,11 +30,13 @@ Print Assumptions rejected_size_line_raises.
 
 (* ---- Content-Length framing (model LenRead.v) ---- *)
 
-(* enforce_content_length is on by default from urlopen down to the response, and _raw_read still raises IncompleteRead on
-   an empty read while length_remaining is not zero *)
+(* enforce_content_length is on by default from urlopen down to the response; _raw_read still raises IncompleteRead on an
+   empty read while length_remaining is not zero - for read(n) and for read1 with or without a size; stream() still
+   makes one more read after its loop, so that the decoder reports an incomplete stream *)
 Theorem source_facts :
-  Gen_Read.enforce_content_length_default = Some true /\ Gen_Read.raw_read_enforces_length = Some true.
-Proof. split; reflexivity. Qed.
+  Gen_Read.enforce_content_length_default = Some true /\ Gen_Read.raw_read_enforces_length = Some true /\
+  Gen_Read.stream_flushes_after_loop = Some true.
+Proof. repeat split; reflexivity. Qed.
 Print Assumptions source_facts.
 
 (* a body that stops short of its Content-Length never ends normally: read() / preload, a loop of read(n), stream(n),
